@@ -6,6 +6,8 @@ PROP = dict(
     legs=[
         dict(name="tsan", harness="c09_logging", flavour="tsan", mode="mix", quick=240, thorough=8000, concurrent=True, args=_A, case_timeout=300),
         dict(name="asan", harness="c09_logging", flavour="asan", mode="mix", quick=480, thorough=16000, seed_offset=611953, concurrent=True, args=_A, case_timeout=300),
+        dict(name="disable-race-tsan", harness="c09_logging", flavour="tsan", mode="disable-race", quick=300, thorough=10000, seed_offset=77, concurrent=True, args=_A, case_timeout=300),
+        dict(name="disable-race-asan", harness="c09_logging", flavour="asan", mode="disable-race", quick=600, thorough=20000, seed_offset=611999, concurrent=True, args=_A, case_timeout=300),
     ],
     rule=("each case: 1-8 logging threads x 1-4 bursts x 5-160 calls through LogPrintfFunc in both the printf form (one and two conversions) and "
           "the puts form, levels -1..8, 4 module ids, 4 function/file names, text lengths {0,1,2047,2048,2049,max-1,max,max+1,3*max,~2045,<200}, "
@@ -16,8 +18,11 @@ PROP = dict(
           "the sinks are read back at once and compared per thread, in order, with the calls that were made while the sink was enabled and "
           "pass its filter (level, module, function, file basename, line, text cut to exactly max, truncation mark, timestamp in the call "
           "window); every line of every log file must parse as one whole record, files ordered by timestamp and numeric suffix. Non-trivial = "
-          ">= 2 logging threads; distinct = distinct configuration+script hashes"),
-    assumptions=["maximum length, sink thresholds and enable/disable change only between bursts (all logging threads parked on a barrier)",
+          ">= 2 logging threads; distinct = distinct configuration+script hashes. Mode disable-race: 1-5 threads log short records continuously "
+          "into one sink (recording or AsyncFileSink) while the main thread calls disable() after a seeded pause; call/return/disable instants are "
+          "taken from one atomic counter; every call that had returned before disable() was entered must be in the sink when disable() returns, "
+          "no call entered after it returned may be, records per thread are in call order, whole and unique"),
+    assumptions=["mode mix: maximum length, sink thresholds and enable/disable change only between bursts (all logging threads parked on a barrier); mode disable-race: disable() runs concurrently with log calls, calls overlapping it may or may not be recorded",
                  "module, function and file names are short static strings (the back end formats them into a 1 KiB buffer)",
                  "text contains no spaces or newlines so a formatted line can be parsed back unambiguously",
                  "levels IMPORTANT and INFO share the letter I in formatted sinks; they are distinguished only in the recording sink"],
@@ -25,7 +30,7 @@ PROP = dict(
     level_text=("Hundreds to thousands of randomized multi-thread logging scenarios against the real front end, AsyncPipe-based sinks and file "
                 "roll-over; every record in every sink is matched to exactly one call. Held on the schedules and configurations observed."),
     level_note="trusts the harness's line parser and call log, gcc TSan/ASan; schedules sampled",
-    required_counters={"all": ["file_fault_windows", "file_fault_windows_with_a_file_already_open", "records_recording_sink", "records_file_sink", "records_async_stdout", "records_sync_stdout", "records_truncated",
+    required_counters={"all": ["race_disable_cases_file_sink", "race_disable_cases_recording_sink", "race_disable_calls_returned_before_disable", "race_disable_calls_overlapping_disable", "race_disable_calls_entered_after_disable_returned", "file_fault_windows", "file_fault_windows_with_a_file_already_open", "records_recording_sink", "records_file_sink", "records_async_stdout", "records_sync_stdout", "records_truncated",
                                "records_empty_text", "records_over_2048", "file_rollovers", "calls_rejected_by_filter",
                                "calls_while_sink_disabled", "enable_disable_transitions", "relevel_module_set_again", "relevel_module_unset", "relevel_default", "verif_point_delays"]},
 )
